@@ -19,6 +19,11 @@ func main() {
 		// own scratch base: other checks clean /var/tmp/verif-work while this one runs
 		os.Setenv("VERIF_SCRATCH", "/tmp/verif-work-client")
 	}
+	// worker processes are re-executions of this binary; go through /proc/self/exe so
+	// that they start even if the file in /verif/.bin is replaced or removed meanwhile
+	if _, err := os.Stat("/proc/self/exe"); err == nil {
+		os.Args[0] = "/proc/self/exe"
+	}
 	if len(os.Args) < 2 {
 		fmt.Println("ENGINE-ERROR property=? usage: client <C21|C22|C23|C37|keygen>")
 		os.Exit(2)
